@@ -1,9 +1,12 @@
 /-
   Tie (C12, C13): every statement that can write non-local memory in a function reachable from
-  `(*Evaluator).Evaluate` / `(*Filter).Execute` — as extracted from /repo on this run — is one of
-  the sites classified call-local in `Bexpr/Eval/Effects.lean`, every appended-to slice there has
-  a fresh origin, there are no package-level variables written, no goroutines / channels / sync,
-  and the one AST write (`precompileRegexps`) is reachable from creation only.
+  `(*Evaluator).Evaluate` / `(*Filter).Execute` — as extracted from /repo on this run — has a
+  class that `Bexpr/Eval/Effects.lean` explains to be call-local (it writes memory held by a fresh
+  local, or it is one of the Option setters writing the options struct of `getOpts`), every
+  appended-to slice there has fresh origins only, there are no package-level variables written, no
+  goroutines / channels / sync, and the one AST write (`precompileRegexps`) is reachable from
+  creation only.  The classes are computed by xlate (facts_effects.go); the source text of a site is
+  not compared.
 -/
 import BexprGen.Effects
 import Bexpr.Eval.Effects
@@ -18,7 +21,7 @@ theorem no_shared_write_in_evaluate :
   decide +kernel
 
 theorem append_targets_fresh :
-    BexprGen.Effects.appendOrigins.all (fun o => !fromEvaluate o.1 || freshOrigins.contains o) = true := by
+    BexprGen.Effects.appendOrigins.all (fun o => !fromEvaluate o.1 || isFreshOrigin o) = true := by
   decide +kernel
 
 /-- the regexp cache is written at creation time only -/
@@ -32,11 +35,13 @@ theorem globals_readonly :
     BexprGen.Effects.globals = [("byteSliceTyp", "reflect.TypeOf([]byte{})")] := by
   decide +kernel
 
-/-- Evaluate rebuilds its options from the evaluator's fields on every call -/
+/-- Evaluate rebuilds its options from the evaluator's fields on every call: exactly these three
+    options, in any order (they set three different fields: `Ties.Options.setters_own_field`) -/
 theorem evaluate_rebuilds_options :
-    BexprGen.Effects.evaluateOptsBuilt =
-      ["WithTagName(eval.tagName)", "WithHookFn(eval.valueTransformationHook)",
-       "if eval.unknownVal != nil: WithUnknownValue(*eval.unknownVal)"] ∧
+    BexprGen.Effects.evaluateOptsBuilt.length = 3 ∧
+    ["WithTagName(eval.tagName)", "WithHookFn(eval.valueTransformationHook)",
+     "if eval.unknownVal != nil: WithUnknownValue(*eval.unknownVal)"].all
+      BexprGen.Effects.evaluateOptsBuilt.contains = true ∧
     BexprGen.Effects.evaluatorFields = ["ast", "tagName", "valueTransformationHook", "unknownVal", "expression"] := by
   decide +kernel
 
